@@ -133,7 +133,7 @@ Section FullProofs.
     let r := @ptr R NumR brent bs p xk tr k in length (fst r) = length bs /\ in_box bs (fst r).
   Proof.
     intros Ep Ek. cbv zeta. unfold ptr. cbn [fst].
-    pose proof (project_onto_tr_props p xk bs tr (brent k) W Ep Ek) as H. cbv zeta in H. destruct H as (H & _).
+    pose proof (project_onto_tr_in_box p xk bs tr (brent k) W Ep Ek) as H.
     split; [apply in_box_length; exact H|exact H].
   Qed.
 
